@@ -198,6 +198,34 @@ Definition outcome_eqb (o1 o2 : outcome) : bool :=
   | _, _ => false
   end.
 
+(* Tables of more than 20000 bins (24 zero-containing columns at bin 0.01 reach 45000): the exact
+   DP over lists is not affordable inside vm_compute, so for such a case only the clauses of the
+   property that are linear in the table length are evaluated: the offset is the model's
+   [smallest] and the length the model's [tlen] (so every attainable bin has an entry), every
+   entry up to the lowest attainable score (sum of the column minima) is 1 to 1e-9, every entry
+   above the highest attainable score (sum of the column maxima) is -inf, no entry is NaN, the
+   entries are non-increasing.  (Instances of the clauses of [spec_gen]; not covered by a theorem.) *)
+Fixpoint mono_cells (l : list cell) : bool :=
+  match l with
+  | x :: ((y :: _) as r) => cell_le y x && mono_cells r
+  | _ => true
+  end.
+
+Definition big_ok (M : imat) (o : outcome) : bool :=
+  match o with
+  | Err => false
+  | Ok (sm, t) =>
+      let w := Z.of_nat (length M) in
+      let lo := sum_min M in let hi := sum_max M in
+      wfb M && (alpha M =? 4)%nat &&
+      (sm =? smallest M) && (length t =? tlen M)%nat &&
+      (sm <=? lo) && (hi <? sm + Z.of_nat (length t)) &&
+      forallb (fun x => cell_ok w x (4 ^ w)) (firstn (Z.to_nat (lo - sm + 1)) t) &&
+      forallb (fun x => cell_ok w x 0) (skipn (Z.to_nat (hi - sm + 1)) t) &&
+      forallb (fun x => match x with CNaN => false | _ => true end) t &&
+      mono_cells t
+  end.
+
 Definition case := (imat * outcome)%type.
 
 (* The implementation's table is compared with the model and judged by the spec.  Both are
@@ -206,6 +234,7 @@ Definition case := (imat * outcome)%type.
    spec are evaluated as well. *)
 Definition check_case (c : case) : nat :=
   let '(M, o) := c in
+  if Nat.leb 20000 (tlen M) then verdict true (big_ok M o) else
   let small_model := (Nat.leb (tlen M) 400) in
   let small_enum := (Nat.leb (length M) 5) && (Nat.leb (tlen M) 400) in
   verdict (outcome_eqb o (model_fast M) && (if small_model then outcome_eqb o (model M) else true))
